@@ -284,7 +284,10 @@ func runSlotBeforeBcast(c *core.Ctx) {
 	if alloc != nil && bcast != nil {
 		detail = fmt.Sprintf("%s dominates %s: %v", an.StaticCallee(&alloc.Call).Name(), an.StaticCallee(&bcast.Call).Name(), good)
 		// the broadcast message is the one the allocation step returned
-		if good && an.PathOf(bcast.Call.Args[len(bcast.Call.Args)-1]) != an.PathOf(alloc) {
+		// (… or, when that step answers nothing, the very message it was handed)
+		sameMsg := alloc.Type() != nil && alloc.Call.Signature().Results().Len() == 0 && len(alloc.Call.Args) > 0 &&
+			bcast.Call.Args[len(bcast.Call.Args)-1] == alloc.Call.Args[len(alloc.Call.Args)-1]
+		if good && an.PathOf(bcast.Call.Args[len(bcast.Call.Args)-1]) != an.PathOf(alloc) && !sameMsg {
 			good = false
 			detail += "; but the broadcast message is not the allocation step's result"
 		}
@@ -328,7 +331,7 @@ func runReqCoupd(c *core.Ctx) {
 		okVals := got["eose"] != nil && strings.HasPrefix(an.PathOf(got["eose"].Value), "make:slice") &&
 			got["seen"] != nil && strings.HasPrefix(an.PathOf(got["seen"].Value), "make:map") &&
 			got["matcher"] != nil && (strings.Contains(an.PathOf(got["matcher"].Value), "NewReqFiltersEventLimitMatcher(p:"+set.Params[2].Name()+")") ||
-				matcherFromFilters(P, got["matcher"].Value, set.Params[2])) &&
+			matcherFromFilters(P, got["matcher"].Value, set.Params[2])) &&
 			got["lastEvent"] != nil && an.IsNilConst(got["lastEvent"].Value)
 		c.Check(len(miss) == 0 && okVals, nil, fname(c, set), "set(4 maps)", P.Pos(set.Pos()), "a REQ (re)initialises all four per-subscription maps together: fresh EOSE flags, no last event, empty seen-set, a matcher from the REQ's filters",
 			fmt.Sprintf("a REQ does not reset all four per-subscription maps together (missing: %v, fresh values: %v): state of a previous use of the id leaks into the new subscription", miss, okVals))
@@ -877,6 +880,54 @@ func runEoseGate(c *core.Ctx) {
 	}
 	good := ret != nil && len(adOcc) == 2 && len(mkOcc) == 1
 	detail := fmt.Sprintf("all-done calls: %d, mark calls: %d", len(adOcc), len(mkOcc))
+	// the gate folded into the marking method: `SetEOSE(id, idx) bool` answers "forward" — the
+	// subscription is still tracked (an entry of the flag table exists: all-done deletes it when it
+	// answers true and answers true for what is not tracked, so "tracked" is "not already complete"),
+	// this child's flag is set behind that test, and all-done is true now
+	if !good && ret != nil && len(adOcc) == 0 && len(mkOcc) == 1 && boolResultIdx(mark) == 0 && mark.Signature.Results().Len() == 1 {
+		mk := mkOcc[0].In.(*ssa.Call)
+		argsOK := len(mk.Call.Args) == 3 && mkOcc[0].Path(mk.Call.Args[1]) == subID && mkOcc[0].Path(mk.Call.Args[2]) == idxPath
+		idParam := "p:" + mark.Params[1].Name()
+		var second *ssa.Call
+		for _, call := range callsTo(mark, allDone) {
+			if an.PathOf(call.Call.Args[1]) == idParam {
+				second = call
+			}
+		}
+		var markStore *ssa.Store
+		an.Instrs(mark, func(in ssa.Instruction) {
+			if st, ok := in.(*ssa.Store); ok && isConstBool(an.Unwrap(st.Val), true) && strings.HasPrefix(an.PathOf(st.Addr), "recv.eose["+idParam+"]") {
+				markStore = st
+			}
+		})
+		tracked := func(g an.Cond) bool {
+			g = an.NormCond(g)
+			return g.True && an.PathOf(g.V) == "ok(recv.eose["+idParam+"])"
+		}
+		tps, okp := an.ResultPaths(mark, 0, true)
+		e1 := okp && len(tps) > 0 && an.AllHave(tps, tracked)
+		e2 := second != nil && okp && an.AllHave(tps, func(g an.Cond) bool { return g.V == ssa.Value(second) && g.True })
+		order := markStore != nil && second != nil && an.InstrDominates(markStore, second)
+		markGuard := false
+		if markStore != nil {
+			for _, g := range an.Guards(mark, markStore.Block()) {
+				if tracked(g) {
+					markGuard = true
+				}
+			}
+		}
+		fwdOnTrue := false
+		for _, g := range an.Guards(fn, ret) {
+			v, pol := stripNot(g.V, g.True)
+			if v == ssa.Value(mk) && pol && len(mkOcc[0].Chain) == 0 {
+				fwdOnTrue = true
+			}
+		}
+		ok := argsOK && e1 && e2 && order && markGuard && fwdOnTrue
+		c.Check(ok, nil, fname(c, fn), "gate", P.Pos(fn.Pos()), "EOSE is forwarded only on the marking method's 'true', which it gives only when the subscription is still tracked, this child's flag has been set, and all flags are set now — not before every child and not twice",
+			fmt.Sprintf("EOSE gate shape broken (gate folded into %s: args ok: %v; every 'true' tests that the subscription is still tracked: %v; … and all-done afterwards: %v; flag set before that test: %v and only when tracked: %v; forwarded only on 'true': %v): the EOSE can be forwarded early, twice, or after CLOSE", mark.Name(), argsOK, e1, e2, order, markGuard, fwdOnTrue))
+		return
+	}
 	if good {
 		ads := []*ssa.Call{adOcc[0].In.(*ssa.Call), adOcc[1].In.(*ssa.Call)}
 		mk := mkOcc[0].In.(*ssa.Call)
@@ -1464,6 +1515,18 @@ func runOkAgg(c *core.Ctx) {
 	msgFn := P.Method(P.Root, "mergeHandlerSessionOKState", "Msg")
 	ready := P.Method(P.Root, "mergeHandlerSessionOKState", "Ready")
 	join := P.Func(P.Root, "joinServerOKMsgs")
+	// the aggregation written verdict first, without the two lists and the join helper: the verdict
+	// is "every reply accepts", the text is written in one pass over the replies, in child order,
+	// from those whose own verdict equals the merged one
+	if msgFn != nil && ready != nil && join == nil {
+		c.CountFuncs(2)
+		okV, why := okAggVerdictFirst(c, msgFn)
+		c.Check(okV, nil, fname(c, msgFn), "verdict", P.Pos(msgFn.Pos()), "verdict-first aggregation: accepted iff every child's reply accepts; the text is the texts of the replies that agree with that verdict, in child order — a rejecting reply starts with the first rejecting child's reason",
+			"the aggregated OK is not 'rejecting iff some child rejected, rejecting reasons first': "+why)
+		c.Check(okV, nil, fname(c, msgFn), "join", P.Pos(msgFn.Pos()), "the reply is built once, labelled with the key its replies were filed under", "the aggregated OK is not built from the merged verdict and the in-order text: "+why)
+		okAggReady(c, ready)
+		return
+	}
 	if msgFn == nil || ready == nil || join == nil {
 		c.NoAnchor(nil, "mergeHandlerSessionOKState.Msg / Ready, joinServerOKMsgs")
 		return
@@ -1727,7 +1790,127 @@ func runOkAgg(c *core.Ctx) {
 		okJoin = okJoin && wrote && strings.Contains(an.PathOf(ctor.Call.Args[3]), "strings.Builder).String(")
 	}
 	c.Check(okJoin, nil, fname(c, join), "join", P.Pos(join.Pos()), "joined reply: id and verdict of the first message, text = the messages' texts concatenated in order (machine-readable prefix of the first survives)", "the joined OK does not carry the first message's id/verdict with the texts concatenated in order")
-	// Ready: slot exists and no child reply is missing
+	okAggReady(c, ready)
+}
+
+// okAggVerdictFirst: Msg(id) = NewServerOKMsg(id, V, "", text) with L = recv.s[id], V = "every element
+// of L has Accepted" (a standard-library quantifier over L), and text the Builder written only in a
+// range loop over L with each element's Message() behind `elem.Accepted == V`.
+func okAggVerdictFirst(c *core.Ctx, msgFn *ssa.Function) (bool, string) {
+	if len(msgFn.Params) != 2 {
+		return false, "Msg does not take the event id alone"
+	}
+	idP := msgFn.Params[1]
+	var ctor *ssa.Call
+	for _, rb := range an.ReturnBlocks(msgFn) {
+		rv := an.ReturnValues(an.LastInstr(rb).(*ssa.Return))
+		if len(rv) != 1 {
+			return false, "unexpected results"
+		}
+		call := an.CallOf(rv[0])
+		if call == nil || !strings.HasSuffix(an.CalleeName(&call.Call), ".NewServerOKMsg") || ctor != nil {
+			return false, "Msg does not end in one NewServerOKMsg"
+		}
+		ctor = call
+	}
+	if ctor == nil || len(ctor.Call.Args) != 4 {
+		return false, "no NewServerOKMsg result"
+	}
+	if ctor.Call.Args[0] != ssa.Value(idP) {
+		return false, "the reply is not labelled with the id the replies were looked up under"
+	}
+	// L = recv.s[id]
+	var list ssa.Value
+	an.Instrs(msgFn, func(in ssa.Instruction) {
+		if lk, ok := in.(*ssa.Lookup); ok && lk.Index == ssa.Value(idP) && an.PathOf(lk.X) == "recv.s" {
+			list = lk
+		}
+	})
+	if list == nil {
+		return false, "the replies are not looked up under the id"
+	}
+	verdict := an.Unwrap(ctor.Call.Args[1])
+	q, member, okq := quantOver(verdict, list)
+	if !okq || q != "all" || member != "Accepted" {
+		return false, fmt.Sprintf("the verdict is not 'every reply accepts' (read: %s %s)", q, member)
+	}
+	if s, isS := an.ConstStr(ctor.Call.Args[2]); !isS || s != "" {
+		return false, "the reply carries a prefix of its own"
+	}
+	txt := an.CallOf(ctor.Call.Args[3])
+	if txt == nil || !strings.HasSuffix(an.CalleeName(&txt.Call), "strings.Builder).String") {
+		return false, "the text is not a strings.Builder's"
+	}
+	builder := txt.Call.Args[0]
+	nWrites := 0
+	for _, ci := range calls(msgFn) {
+		call, ok := ci.(*ssa.Call)
+		if !ok || len(call.Call.Args) == 0 || call.Call.Args[0] != builder {
+			continue
+		}
+		n := an.CalleeName(&call.Call)
+		if strings.HasSuffix(n, "strings.Builder).String") {
+			continue
+		}
+		if !strings.HasSuffix(n, "strings.Builder).WriteString") {
+			return false, "the builder is written by " + n
+		}
+		nWrites++
+		// the element's own Message(), in a range loop over L
+		mc := an.CallOf(call.Call.Args[1])
+		if mc == nil || !strings.HasSuffix(an.CalleeName(&mc.Call), "ServerOKMsg).Message") {
+			return false, "something other than a reply's Message() is written"
+		}
+		elem := mc.Call.Args[0]
+		// one pass over all replies, front to back: the loop is left only when the range is exhausted
+		h := an.LoopHeaderOf(call.Block())
+		if h == nil {
+			return false, "the text is not written in a loop over the replies"
+		}
+		loop := an.LoopBlocks(h)
+		for b := range loop {
+			for _, sb := range b.Succs {
+				if !loop[sb] && b != h {
+					return false, "the loop over the replies can be left early (" + c.P.Pos(an.LastInstr(b).Pos()) + ")"
+				}
+			}
+		}
+		if ld, isLd := elem.(*ssa.UnOp); !isLd || ld.Op != token.MUL {
+			return false, "the written reply is not an element of the list"
+		} else if ia, isIA := ld.X.(*ssa.IndexAddr); !isIA || an.Unwrap(ia.X) != list {
+			return false, "the written reply is not an element of the looked-up list"
+		}
+		agrees := false
+		for _, g := range an.Guards(msgFn, call.Block()) {
+			g = an.NormCond(g)
+			b, isB := g.V.(*ssa.BinOp)
+			if !isB || b.Op != token.EQL || !g.True {
+				continue
+			}
+			for _, pair := range [][2]ssa.Value{{b.X, b.Y}, {b.Y, b.X}} {
+				if an.Unwrap(pair[1]) != verdict {
+					continue
+				}
+				if fld, isF := pair[0].(*ssa.UnOp); isF && fld.Op == token.MUL {
+					if fa, isFA := fld.X.(*ssa.FieldAddr); isFA && fa.X == elem && an.FieldName(fa.X.Type(), fa.Field) == "Accepted" {
+						agrees = true
+					}
+				}
+			}
+		}
+		if !agrees {
+			return false, "a reply's text is written without testing that its verdict equals the merged one"
+		}
+	}
+	if nWrites != 1 {
+		return false, fmt.Sprintf("%d writes into the text", nWrites)
+	}
+	return true, ""
+}
+
+// okAggReady: Ready ⇒ the slot exists and no child reply is missing
+func okAggReady(c *core.Ctx, ready *ssa.Function) {
+	P := c.P
 	t, _, n, ok := an.NoSubject().FuncBoolMeaning(ready, 0, nil, nil)
 	_ = t
 	contains := false
@@ -1902,7 +2085,7 @@ func boolResultIdx(fn *ssa.Function) int {
 	if res.Len() == 0 {
 		return -1
 	}
-	if bt, ok := res.At(res.Len()-1).Type().Underlying().(*types.Basic); ok && bt.Kind() == types.Bool {
+	if bt, ok := res.At(res.Len() - 1).Type().Underlying().(*types.Basic); ok && bt.Kind() == types.Bool {
 		return res.Len() - 1
 	}
 	return -1
